@@ -13,6 +13,8 @@ ENV = {"VERIF_LEAKCHECK": "1"}
 RULE = ("strings built around every BMP character (thorough: every Unicode character) whose NFC, NFD or case-folded form has a "
         "different length than the character itself, alone and embedded in ASCII, used as table key, packet item name, block "
         "code, frame code, data name and character value; lists of 0..13 elements cloned and grown by 0..7; "
+        "misc / verr / herr: the public functions no other family calls and the documented non-memory error exits of the value "
+        "and handle functions (wrong kind, bad index, NULL, invalid code, stale / NULL handles, duplicates, CIF_CAT_NOT_UNIQUE); "
         "non-trivial = every distinct request; oracle: no sanitizer report, no leaked block")
 
 
@@ -37,6 +39,9 @@ def generate(seed, tier):
         # a fixed set of known length-changing classes first, then a seeded sample of the rest
         must = [c for c in "क़य़ড়ਲ਼གྷיִ⫝̸ßİﬃẞŉǰΐᾀÅΩ한ཱི̈́"]
         chars = must + r.sample(chars, min(len(chars), 500))
+    # public functions / documented error exits that no other leak-swept family reaches (tools/dev/api_coverage.py)
+    for sc in ("misc", "verr", "herr"):
+        yield "api16 %s 0" % sc
     for c in chars:
         for kind in ("key", "name"):
             yield "api16 %s %s" % (kind, hexs(c))
